@@ -105,19 +105,42 @@ CHECKS = {
             "TLA+ clauses (spec/PyBind.tla) on (native, Python) result pairs; file comparison for the generated enums"),
 }
 
-DESIGN_LEVEL = {'C01': (' Design level: TLC model-checks spec/MC_SasLexer.tla (operational model with lazily chosen input) for NoFault, NoInternalError, CkptDiscipline and the action property Progress in regimes R2 (configuration-exhaustive under a view) and R1 (all inputs up to N fragments).', ' + TLC model checking of the operational model (MC_SasLexer: NoFault, Progress, CkptDiscipline), bound to the code by trace conformance'),
- 'C02': (' Design level: TokensOrdered and DoneShape model-checked on spec/MC_SasLexer.tla (R2 and R1).', ' + TLC model checking of the operational model (TokensOrdered, DoneShape)'),
- 'C03': (' The operational model is bound to the byte cursor by conformance (TraceConf ByteDiffs).', ' + byte-offset conformance of the operational model'),
- 'C04': (' Design level: LinesMatch model-checked on spec/MC_SasLexer.tla (R2 and R1).', ' + TLC model checking of the operational model (LinesMatch)'),
- 'C05': (' Design level: spec/Buffer.tla transcribes the accessor and bulk-view formulas of buffer.rs; TLC (spec/MC_Views.tla) enumerates every buffer satisfying the buffer invariant over small texts and checks ViewsAgree and ViewsMatchText.', ' + exhaustive small-scope TLC model check of the buffer views (MC_Views)'),
- 'C07': (' Design level: the operational model carries payload kinds, payload ranges and the literal-buffer length (conformance per step); LitPartition is model-checked on spec/MC_SasLexer.tla (R2 and R1).', ' + TLC model checking of the literal-buffer partition (LitPartition) and payload conformance'),
- 'C09': (' Design level: DoneErrPairs model-checked on spec/MC_SasLexer.tla for all inputs up to N fragments (R1) and in R2.', ' + TLC model checking of the operational model (DoneErrPairs)'),
- 'C10': (' Design level: DoneShape and DoneBalanced model-checked on spec/MC_SasLexer.tla (R2 and R1).', ' + TLC model checking of the operational model (DoneShape, DoneBalanced)'),
- 'C11': (' Design level: TLC checks OpenCodeEq (operational model = reference lexer, tokens and errors) on every macro-free input of up to 4 open-code fragments.', ' + TLC model checking of model = reference lexer (OpenCodeEq)'),
- 'C15': (' Design level: spec/MC_Compose.tla spawns a fresh lexer at every closed boundary and runs both in lockstep on lazily chosen text (invariant Compose).', ' + TLC model checking of the lockstep product MC_Compose'),
- 'C16': (' Design level: spec/MC_Twin.tla runs the model on a text and on its upper-cased twin in lockstep (invariant TwinSame).', ' + TLC model checking of the lockstep product MC_Twin (case)'),
- 'C17': (' Design level: spec/MC_Twin.tla runs the model on a text and on its BOM-prefixed twin in lockstep (invariant TwinSame).', ' + TLC model checking of the lockstep product MC_Twin (bom)'),
- 'C18': (' Design level: spec/MC_SepPair.tla runs the model with and without the feature in lockstep (SameConfiguration, SepErase, SepPlacement, SepPlacementStrict).', ' + TLC model checking of the lockstep product MC_SepPair')}
+DESIGN_LEVEL = {
+ 'C01': (' Design level: TLC model-checks spec/MC_SasLexer.tla (operational model with lazily chosen input) for NoFault, NoInternalError, CkptDiscipline and the action property Progress in regimes R2 (configuration-exhaustive under a view) and R1 (all inputs up to N fragments). The executions judged are also validated step by step against the operational model (CONF_drift), which is what carries the design-level results over to the code.',
+         ' + TLC model checking of the operational model (MC_SasLexer: NoFault, Progress, CkptDiscipline), bound to the code by trace conformance + per-step trace validation of the judged executions'),
+ 'C02': (' Design level: TokensOrdered and DoneShape model-checked on spec/MC_SasLexer.tla (R2 and R1). The executions judged are also validated step by step against the operational model (CONF_drift), which is what carries the design-level results over to the code.',
+         ' + TLC model checking of the operational model (TokensOrdered, DoneShape) + per-step trace validation of the judged executions'),
+ 'C03': (' The operational model is bound to the byte cursor by conformance (TraceConf ByteDiffs). The executions judged are also validated step by step against the operational model (CONF_drift), which is what carries the design-level results over to the code.',
+         ' + byte-offset conformance of the operational model + per-step trace validation of the judged executions'),
+ 'C04': (" Design level: LinesMatch model-checked on spec/MC_SasLexer.tla (R2 and R1). The model carries the token's line index (conformance per step); the invariant BufferOK (hypotheses of spec/BufferProof.tla) is model-checked. The executions judged are also validated step by step against the operational model (CONF_drift), which is what carries the design-level results over to the code.",
+         ' + TLC model checking of the operational model (LinesMatch) + BufferOK + per-step trace validation of the judged executions'),
+ 'C05': (' Design level: spec/Buffer.tla transcribes the accessor and bulk-view formulas of buffer.rs; TLC (spec/MC_Views.tla) enumerates every buffer satisfying the buffer invariant over small texts and checks ViewsAgree and ViewsMatchText. Unbounded: spec/BufferProof.tla (ViewsAgreeThm, LineUnique, ViewsMatchTextThm; 167 obligations) is checked by tlapm for every buffer satisfying the buffer invariant, and that invariant (BufferOK) is model-checked on the operational model.',
+         ' + exhaustive small-scope TLC model check of the buffer views (MC_Views) + TLAPS proof (tlapm) of the view identities'),
+ 'C06': (" Design level: the shape table is evaluated on the operational model's own result (model leg M06); integer payloads are part of the model and of conformance.",
+         " + TLA+ clauses on the model's own result (ModelRec)"),
+ 'C07': (' Design level: the operational model carries payload kinds, payload ranges and the literal-buffer length (conformance per step); LitPartition is model-checked on spec/MC_SasLexer.tla (R2 and R1). The executions judged are also validated step by step against the operational model (CONF_drift), which is what carries the design-level results over to the code.',
+         ' + TLC model checking of the literal-buffer partition (LitPartition) and payload conformance + per-step trace validation of the judged executions'),
+ 'C09': (" Design level: DoneErrPairs model-checked on spec/MC_SasLexer.tla for all inputs up to N fragments (R1) and in R2. The same clauses are evaluated on the operational model's own result for every input (model leg M09) and the final results of model and implementation are compared (MSAME).",
+         ' + TLC model checking of the operational model (DoneErrPairs) + model leg (clauses on ModelRec, MSAME)'),
+ 'C10': (" Design level: DoneShape and DoneBalanced model-checked on spec/MC_SasLexer.tla (R2 and R1). The same clauses are evaluated on the operational model's own result for every input (model leg M10) and the final results of model and implementation are compared (MSAME).",
+         ' + TLC model checking of the operational model (DoneShape, DoneBalanced) + model leg (clauses on ModelRec, MSAME)'),
+ 'C11': (" Design level: TLC checks OpenCodeEq (operational model = reference lexer, tokens and errors) on every macro-free input of up to 4 open-code fragments. The same clauses are evaluated on the operational model's own result for every input (model leg M11) and the final results of model and implementation are compared (MSAME).",
+         ' + TLC model checking of model = reference lexer (OpenCodeEq) + model leg (clauses on ModelRec, MSAME)'),
+ 'C12': (" The same clauses are evaluated on the operational model's own result for every input (model leg M12) and the final results of model and implementation are compared (MSAME).",
+         ' + model leg (clauses on ModelRec, MSAME)'),
+ 'C13': (" The same clauses are evaluated on the operational model's own result for every input (model leg M13) and the final results of model and implementation are compared (MSAME).",
+         ' + model leg (clauses on ModelRec, MSAME)'),
+ 'C14': (" The same clauses are evaluated on the operational model's own result for every input (model leg M14) and the final results of model and implementation are compared (MSAME).",
+         ' + model leg (clauses on ModelRec, MSAME)'),
+ 'C15': (' Design level: spec/MC_Compose.tla spawns a fresh lexer at every closed boundary and runs both in lockstep on lazily chosen text (invariant Compose).',
+         ' + TLC model checking of the lockstep product MC_Compose'),
+ 'C16': (' Design level: spec/MC_Twin.tla runs the model on a text and on its upper-cased twin in lockstep (invariant TwinSame).',
+         ' + TLC model checking of the lockstep product MC_Twin (case)'),
+ 'C17': (' Design level: spec/MC_Twin.tla runs the model on a text and on its BOM-prefixed twin in lockstep (invariant TwinSame).',
+         ' + TLC model checking of the lockstep product MC_Twin (bom)'),
+ 'C18': (' Design level: spec/MC_SepPair.tla runs the model with and without the feature in lockstep (SameConfiguration, SepErase, SepPlacement, SepPlacementStrict).',
+         ' + TLC model checking of the lockstep product MC_SepPair'),
+}
 
 NOT_BUILT = {}
 
